@@ -1,4 +1,457 @@
 import LasioModel.Basic
-/- Reader model (to be filled in) -/
-namespace Lasio
-end Lasio
+import LasioModel.HeaderLine
+import LasioModel.Generated
+/-
+Model of the HEADER-LEVEL part of `LASFile.read` (las.py:210-356), i.e. `lasio.read(text, ignore_data=True, …)`:
+`reader.find_sections_in_file`, `reader.determine_section_type`, `reader.parse_header_items_section`,
+`reader.SectionParser` (`__init__`, `metadata`, `params`, `curves`, `strip_brackets`), the `~Other` loop, the
+routing of parsed sections into `las.sections` and the steering variables (`provisional_version`, `_wrapped`,
+`_null`, `_delimiter`).
+
+The file object is the list of its lines (`readline` semantics: split after every '\n', terminator kept) with a
+cursor; `seek(k)` to a section is `lines.drop first`.  Item values are kept as the raw text BEFORE `num()`.
+Line numbers in `RErr.headerError` are the 1-based numbers printed in the message ("Line N").
+-/
+namespace Lasio.Rd
+
+/-! ## lines -/
+
+/-- `io.StringIO(text)` iteration / `readline`: lines end after each '\n' (terminator kept); a final
+unterminated line is a line; the empty text has no line. `acc` is the current line, reversed. -/
+def splitLinesAux : Str → Str → List Str
+  | [], acc => if acc.isEmpty then [] else [acc.reverse]
+  | c :: cs, acc => if c == '\n' then (c :: acc).reverse :: splitLinesAux cs [] else splitLinesAux cs (c :: acc)
+
+def splitLines (text : Str) : List Str := splitLinesAux text []
+
+/-- `line.strip().strip("\n")` (find_sections_in_file, determine_section_type) -/
+def sline (line : Str) : Str := stripChar '\n' (strip line)
+
+/-- `line.strip("\n").strip()` (parse_header_items_section, the ~Other loop) -/
+def lineStrip (line : Str) : Str := strip (stripChar '\n' line)
+
+/-- `s.startswith("~")` -/
+def startsTilde (s : Str) : Bool := match s with | '~' :: _ => true | _ => false
+
+/-- a line the title scan takes for a section title -/
+def isTitle (line : Str) : Bool := startsTilde (sline line)
+
+/-! ## find_sections_in_file -/
+
+/-- the `starts` list: (zero-based line number, stripped title) of every title line, `no` = number of the head -/
+def titleStarts : List Str → Nat → List (Nat × Str)
+  | [], _ => []
+  | l :: ls, no => if isTitle l then (no, sline l) :: titleStarts ls (no + 1) else titleStarts ls (no + 1)
+
+/-- pair every start with its (inclusive) end: the line before the next start, `lastLine` for the last one -/
+def windows : List (Nat × Str) → Nat → List (Nat × Nat × Str)
+  | [], _ => []
+  | [(n, t)], lastLine => [(n, lastLine, t)]
+  | (n, t) :: (n2, t2) :: rest, lastLine => (n, n2 - 1, t) :: windows ((n2, t2) :: rest) lastLine
+
+/-- `find_sections_in_file`: (first line, inclusive last line, stripped title); the file offset `k` is
+represented by the first line number (`seek(k)` = `lines.drop first`) -/
+def findSections (lines : List Str) : List (Nat × Nat × Str) :=
+  windows (titleStarts lines 0) (lines.length - 1)
+
+/-! ## determine_section_type -/
+
+inductive SecKind where
+  | items | other | data | las3data
+deriving DecidableEq, Repr
+
+def sectionType (title : Str) : SecKind :=
+  let st := sline title
+  if upper (st.take 2) == "~A".toList || contains "~Log_Data".toList st then .data
+  else if upper (st.take 2) == "~O".toList then .other
+  else if contains "_Data".toList st then .las3data
+  else .items
+
+/-! ## the provisional version -/
+
+/-- what the model knows about `provisional_version` (a float, an int or a str in the code) as a key of
+`defaults.ORDER_DEFINITIONS`: one of the table's versions, certainly not a key (`KeyError`), or undecided -/
+inductive VerVal where
+  | known (key : Str)
+  | bad
+  | undecided
+deriving DecidableEq, Repr
+
+def dropZeros : Str → Str
+  | '0' :: t => dropZeros t
+  | s => s
+
+/-- unsigned / '+'-signed plain decimal `\d+\.?\d*|\.\d+` → (integer digits without leading zeros,
+fraction digits without trailing zeros) -/
+def normDec (s : Str) : Option (Str × Str) :=
+  let s := match s with | '+' :: t => t | _ => s
+  let ip := s.takeWhile isAsciiDigit
+  match s.dropWhile isAsciiDigit with
+  | [] => if ip.isEmpty then none else some (dropZeros ip, [])
+  | '.' :: fr =>
+    if fr.all isAsciiDigit && !(ip.isEmpty && fr.isEmpty) then some (dropZeros ip, (dropZeros fr.reverse).reverse)
+    else none
+  | _ => none
+
+/-- does `s` have the shape mantissa `[eE]` `[+-]?` digits+ (a numeric literal with an exponent)? -/
+def hasExpShape (s : Str) : Bool :=
+  let s := match s with | '+' :: t => t | '-' :: t => t | _ => s
+  let mant := s.takeWhile (fun c => c != 'e' && c != 'E')
+  match s.dropWhile (fun c => c != 'e' && c != 'E') with
+  | _ :: ex =>
+    let ex := match ex with | '+' :: t => t | '-' :: t => t | _ => ex
+    (normDec mant).isSome && !(mant.head? == some '+') && !ex.isEmpty && ex.all isAsciiDigit
+  | [] => false
+
+/-- the versions that are keys of `ORDER_DEFINITIONS` (normalised decimal, table spelling) -/
+def versionKeys : List ((Str × Str) × Str) :=
+  (Generated.orderDefinitions.map (fun r => r.1.toList)).eraseDups.filterMap fun k =>
+    (normDec k).map fun n => (n, k)
+
+/-- classify the raw text of the VERS value (`none` = still the default `2.0`).  `num()` turns the text into
+`np.int64`/`np.float64` when it is a numeric literal and keeps the `str` otherwise; a `str` is never a key.
+Decimals with at most 15 significant digits are decided exactly; a comma (decimal-mark substitution), an
+exponent or more digits are left undecided. -/
+def classifyVer : Option Str → VerVal
+  | none => .known "2.0".toList
+  | some raw =>
+    if raw.contains ',' then .undecided
+    else match normDec raw with
+      | some (ip, fp) =>
+        if ip.length + fp.length > 15 then .undecided
+        else match versionKeys.lookup (ip, fp) with
+          | some k => .known k
+          | none => .bad
+      | none => if hasExpShape raw then .undecided else .bad
+
+/-! ## SectionParser -/
+
+inductive MCase where
+  | upper | lower | preserve
+deriving DecidableEq, Repr
+
+structure ReadOpts where
+  ignoreHeaderErrors : Bool
+  mnemonicCase : MCase
+deriving DecidableEq, Repr
+
+structure RItem where
+  orig : Str
+  unit : Str
+  value : Str      -- raw text, before `num()`
+  descr : Str
+deriving DecidableEq, Repr
+
+inductive RErr where
+  | headerError (lineNo : Nat)   -- LASHeaderError, "Line {lineNo} (section …)"
+  | noSections                   -- KeyError("No ~ sections found. Is this a LAS file?")
+  | keyError                     -- ORDER_DEFINITIONS[version] / splitters[delimiter]
+  | lasf                         -- IOError: LiDAR file
+  | indexError                   -- section_title[1] of the title "~"
+  | attributeError               -- self.index.copy() when ~Log_Definition items (no data attribute) became Curves
+  | unmodelled
+deriving DecidableEq, Repr
+
+inductive PKind where
+  | curves | params | metadata
+deriving DecidableEq, Repr
+
+structure Parser where
+  kind : PKind
+  sec : SecName                   -- `section_name2` as far as `read_header_line` looks at it
+  defaultOrder : Str
+  orders : List (Str × Str)       -- mnemonic ↦ order
+deriving Repr
+
+def las3Indicators : List Str := ["_DATA".toList, "_PARAMETER".toList, "_DEFINITION".toList]
+
+/-- `any(ind in s.upper() for ind in las3_section_indicators)` -/
+def isLas3Like (s : Str) : Bool := las3Indicators.any fun ind => contains ind (upper s)
+
+def valueDescr : Str := "value:descr".toList
+def descrValue : Str := "descr:value".toList
+
+/-- rows of `ORDER_DEFINITIONS[version][name2]` → (default order, mnemonic ↦ order) -/
+def orderTable (ver : Str) (name2 : String) : Option (Str × List (Str × Str)) :=
+  match Generated.orderDefinitions.find? (fun r => r.1.toList == ver && r.2.1 == name2) with
+  | some r => some (r.2.2.1.toList, r.2.2.2.flatMap fun om => om.2.map fun m => (m.toList, om.1.toList))
+  | none => none
+
+/-- `SectionParser.__init__(title, version)` -/
+def mkParser (title : Str) (ver : VerVal) : Except RErr Parser :=
+  match ver with
+  | .undecided => .error .unmodelled
+  | .bad =>
+    -- `version == 3.0` is False for anything that is not a key; `defs[self.version]` raises KeyError
+    .error .keyError
+  | .known v =>
+    let ut := upper title
+    let (kind, sec, name2) : PKind × SecName × Option String :=
+      if v == "3.0".toList && isLas3Like title then (.metadata, .other, none)
+      else if startsWith "~C".toList ut then (.curves, .curves, some "Curves")
+      else if startsWith "~P".toList ut then (.params, .parameter, some "Parameter")
+      else if startsWith "~W".toList ut then (.metadata, .well, some "Well")
+      else if startsWith "~V".toList ut then (.metadata, .version, some "Version")
+      else (.metadata, .other, none)
+    match name2.bind (orderTable v) with
+    | some (d, os) => .ok ⟨kind, sec, d, os⟩
+    | none => .ok ⟨kind, sec, valueDescr, []⟩
+
+/-- does `SectionParser(title, version)` build `CurveItem`s (`self.func = self.curves`)? -/
+def isCurvesParser (title : Str) (ver : VerVal) : Bool :=
+  !(ver == .known "3.0".toList && isLas3Like title) && startsWith "~C".toList (upper title)
+
+/-- `SectionParser.strip_brackets` -/
+def stripBrackets (x : Str) : Str :=
+  let x := strip x
+  match x.head?, x.getLast? with
+  | some a, some b =>
+    if x.length ≥ 2 && ((a == '[' && b == ']') || (a == '(' && b == ')')) then (x.drop 1).dropLast else x
+  | _, _ => x
+
+/-- `mnemonic_case` applied to the parsed name -/
+def applyCase : MCase → Str → Str
+  | .upper, s => upper s
+  | .lower, s => lower s
+  | .preserve, s => s
+
+/-- `parser(**values)` : `curves` / `params` / `metadata`; the value is the text handed to `num()` (or kept) -/
+def mkItem' (p : Parser) (f : Fields) : RItem :=
+  match p.kind with
+  | .curves => ⟨f.name, stripBrackets f.unit, f.value, f.descr⟩
+  | .params => ⟨f.name, stripBrackets f.unit, f.value, f.descr⟩
+  | .metadata =>
+    let order := (p.orders.lookup f.name).getD p.defaultOrder
+    if order == valueDescr then ⟨f.name, stripBrackets f.unit, f.value, f.descr⟩
+    else if order == descrValue then ⟨f.name, stripBrackets f.unit, f.descr, f.value⟩
+    else ⟨f.name, stripBrackets f.unit, [], []⟩
+
+/-! ## parse_header_items_section -/
+
+/-- what one physical line contributes: skipped (blank / comment), a section title (stops the loop),
+an unparsable line, or an item -/
+inductive LineRes where
+  | skip
+  | title
+  | bad
+  | item (it : RItem)
+deriving DecidableEq, Repr
+
+/-- body of the `for` loop for one line (before the `line_no == line_nos[1]` test) -/
+def lineRes (o : ReadOpts) (p : Parser) (line : Str) : LineRes :=
+  let s := lineStrip line
+  if s.isEmpty then .skip
+  else if s.head? == some '#' then .skip
+  else if startsTilde s then .title
+  else match parseHeaderLine p.sec s with
+    | none => .bad
+    | some f => .item (mkItem' p { f with name := applyCase o.mnemonicCase f.name })
+
+/-- the `for i, line in enumerate(file_obj)` loop: `rest` = lines after the cursor, `lineNo` = zero-based number
+of the line read before them, `last` = `line_nos[1]` -/
+def itemsLoop (o : ReadOpts) (p : Parser) (last : Nat) : List Str → Nat → Except RErr (List RItem)
+  | [], _ => .ok []
+  | line :: rest, lineNo =>
+    let lineNo := lineNo + 1
+    match lineRes o p line with
+    | .title => .ok []
+    | .skip => if lineNo == last then .ok [] else itemsLoop o p last rest lineNo
+    | .bad =>
+      if o.ignoreHeaderErrors then (if lineNo == last then .ok [] else itemsLoop o p last rest lineNo)
+      else .error (.headerError (lineNo + 1))
+    | .item it =>
+      if lineNo == last then .ok [it]
+      else match itemsLoop o p last rest lineNo with
+        | .ok l => .ok (it :: l)
+        | .error e => .error e
+
+/-- `parse_header_items_section(file_obj, (first, last), version, …)` after `file_obj.seek(k)`:
+`secLines` = the lines from the title line on -/
+def parseItemsSection (o : ReadOpts) (ver : VerVal) (secLines : List Str) (first last : Nat) :
+    Except RErr (List RItem) :=
+  match secLines with
+  | [] => .ok []      -- unreachable: `first` is the number of an existing line
+  | titleLine :: rest =>
+    match mkParser (lineStrip titleLine) ver with
+    | .error e => .error e
+    | .ok p => itemsLoop o p last rest first
+
+/-! ## the ~Other loop (las.py:319-337) -/
+
+/-- `for line in file_obj:` starting AT the title line; note the un-stripped `line.startswith("~")` -/
+def otherLoop (last : Nat) : List Str → Nat → List Str
+  | [], _ => []
+  | line :: rest, lineNo =>
+    if startsTilde line then (if lineNo == last then [] else otherLoop last rest lineNo)
+    else lineStrip line :: (if lineNo + 1 == last then [] else otherLoop last rest (lineNo + 1))
+
+def readOther (secLines : List Str) (first last : Nat) : Str :=
+  joinWith ['\n'] (otherLoop last secLines first)
+
+/-! ## SectionItems lookups used by the steering code -/
+
+/-- `mnemonic_compare` -/
+def mcmp (tr : Bool) (a b : Str) : Bool := if tr then upper a == upper b else a == b
+
+/-- `HeaderItem.useful_mnemonic` -/
+def usefulMn (o : Str) : Str := if (strip o).isEmpty then "UNKNOWN".toList else o
+
+/-- session mnemonics after appending the items one by one (`assign_duplicate_suffixes`): an item whose useful
+mnemonic occurs more than once gets `:k` (k = its 1-based rank among them) -/
+def sessionGo (tr : Bool) : List Str → List Str → List Str
+  | _, [] => []
+  | before, u :: after =>
+    let same := fun v => mcmp tr v u
+    let n := (before.filter same).length + 1 + (after.filter same).length
+    (if n > 1 then u ++ ':' :: natToStr ((before.filter same).length + 1) else u) :: sessionGo tr (before ++ [u]) after
+
+def sessionNames (tr : Bool) (items : List RItem) : List Str :=
+  sessionGo tr [] (items.map fun it => usefulMn it.orig)
+
+/-- `key in section` and `section.<key>` : the first item whose session mnemonic compares equal -/
+def lookupItem (tr : Bool) (items : List RItem) (key : Str) : Option RItem :=
+  ((sessionNames tr items).zip items).find? (fun p => mcmp tr p.1 key) |>.map (·.2)
+
+/-! ## steering -/
+
+/-- raw texts of the values that replaced the provisional defaults (`none` = still the default:
+version 2.0, wrapped "YES", null None, delimiter "SPACE") -/
+structure Steer where
+  vers : Option Str
+  wrap : Option Str
+  null : Option Str
+  dlm : Option Str
+deriving DecidableEq, Repr
+
+def Steer.init : Steer := ⟨none, none, none, none⟩
+
+def orKeep (new old : Option Str) : Option Str := match new with | some v => some v | none => old
+
+/-- `section_title[1:2].upper()` -/
+def titleLetter (title : Str) : Str := upper ((title.drop 1).take 1)
+
+/-- las.py:272-286: only ~V's VERS, WRAP, DLM and ~W's NULL -/
+def steer (o : ReadOpts) (title : Str) (items : List RItem) (s : Steer) : Steer :=
+  let tr := o.mnemonicCase != .preserve
+  let get := fun (k : String) => (lookupItem tr items k.toList).map (·.value)
+  if titleLetter title == ['V'] then
+    { s with vers := orKeep (get "VERS") s.vers, wrap := orKeep (get "WRAP") s.wrap, dlm := orKeep (get "DLM") s.dlm }
+  else if titleLetter title == ['W'] then
+    { s with null := orKeep (get "NULL") s.null }
+  else s
+
+/-! ## routing -/
+
+/-- keys of `las.sections` are strings -/
+abbrev RKey := Str
+
+def kVersion : RKey := "Version".toList
+def kWell : RKey := "Well".toList
+def kCurves : RKey := "Curves".toList
+def kParameter : RKey := "Parameter".toList
+def kOther : RKey := "Other".toList
+
+/-- las.py:299-316 for a "Header items" section whose title has at least two characters; `ver` is the
+provisional version AFTER the steering update -/
+def routeKey (title : Str) (ver : VerVal) : Except RErr RKey :=
+  let l := titleLetter title
+  let noUnderscore := !title.contains '_'
+  if (l == ['C'] && noUnderscore) || contains "~Log_Definition".toList title then .ok kCurves
+  else if (l == ['P'] && noUnderscore) || contains "~Log_Parameter".toList title then .ok kParameter
+  else
+    let las3 := isLas3Like (title.drop 1)
+    if las3 && ver == .undecided then .error .unmodelled
+    else if las3 && ver == .known "3.0".toList then .ok (title.drop 1)
+    else if l == ['V'] then .ok kVersion
+    else if l == ['W'] then .ok kWell
+    else .ok (title.drop 1)
+
+/-- las.py:334-337 -/
+def routeKeyOther (title : Str) : RKey :=
+  if titleLetter title == ['O'] then kOther else title.drop 1
+
+inductive SecVal where
+  | items (l : List RItem)
+  | text (s : Str)
+deriving DecidableEq, Repr
+
+/-- `self.sections[key] = v` on an insertion-ordered dict -/
+def assign (k : RKey) (v : SecVal) : List (RKey × Option SecVal) → List (RKey × Option SecVal)
+  | [] => [(k, some v)]
+  | (k', v') :: rest => if k' == k then (k', some v) :: rest else (k', v') :: assign k v rest
+
+def lookupSec (k : RKey) (m : List (RKey × Option SecVal)) : Option SecVal := (m.lookup k).join
+
+/-- `LASFile.__init__`: the five standard keys with their defaults (`none` = not assigned by `read`) -/
+def initSections : List (RKey × Option SecVal) :=
+  [(kVersion, none), (kWell, none), (kCurves, none), (kParameter, none), (kOther, none)]
+
+/-! ## LASFile.read, header level -/
+
+structure RState where
+  steer : Steer
+  sections : List (RKey × Option SecVal)
+  data : List (Nat × Nat × Str)        -- "Data" sections (`data_section_indices`)
+  las3 : List (Nat × Nat × Str)        -- "Las3_Data" sections
+  curvesPlain : Bool                   -- `sections["Curves"]` holds HeaderItems (no `data`) and is not empty
+deriving Repr
+
+def RState.init : RState := ⟨Steer.init, initSections, [], [], false⟩
+
+/-- one iteration of the section loop (las.py:246-348) -/
+def processSection (o : ReadOpts) (lines : List Str) (w : Nat × Nat × Str) (st : RState) : Except RErr RState :=
+  let (first, last, title) := w
+  match sectionType title with
+  | .items =>
+    match parseItemsSection o (classifyVer st.steer.vers) (lines.drop first) first last with
+    | .error e => .error e
+    | .ok items =>
+      let s' := steer o title items st.steer
+      if title.length < 2 then .error .indexError
+      else match routeKey title (classifyVer s'.vers) with
+        | .error e => .error e
+        | .ok k =>
+          let plain := if k == kCurves then !isCurvesParser title (classifyVer st.steer.vers) && !items.isEmpty
+                       else st.curvesPlain
+          .ok { st with steer := s', sections := assign k (.items items) st.sections, curvesPlain := plain }
+  | .other =>
+    .ok { st with sections := assign (routeKeyOther title) (.text (readOther (lines.drop first) first last)) st.sections }
+  | .data => .ok { st with data := st.data ++ [w] }
+  | .las3data => .ok { st with las3 := st.las3 ++ [w] }
+
+def processSections (o : ReadOpts) (lines : List Str) : List (Nat × Nat × Str) → RState → Except RErr RState
+  | [], st => .ok st
+  | w :: ws, st =>
+    match processSection o lines w st with
+    | .error e => .error e
+    | .ok st' => processSections o lines ws st'
+
+structure RHeader where
+  sections : List (RKey × SecVal)      -- the keys assigned by `read`, in the order of `las.sections`
+  steer : Steer
+  data : List (Nat × Nat × Str)        -- the windows `read` would parse as data
+deriving Repr
+
+def delimiters : List Str := ["SPACE".toList, "COMMA".toList, "TAB".toList]
+
+def readLines (o : ReadOpts) (lines : List Str) : Except RErr RHeader :=
+  match findSections lines with
+  | [] => .error .noSections
+  | secs =>
+    match processSections o lines secs RState.init with
+    | .error e => .error e
+    | .ok st =>
+      -- `define_line_splitter(provisional_delimiter)`
+      if !(match st.steer.dlm with | none => true | some d => delimiters.contains d) then .error .keyError
+      -- `self.index_initial = self.index.copy()`
+      else if st.curvesPlain then .error .attributeError
+      else .ok ⟨st.sections.filterMap (fun kv => kv.2.map fun v => (kv.1, v)), st.steer,
+                if st.data.isEmpty then st.las3 else st.data⟩
+
+/-- `lasio.read(text, ignore_data=True, ignore_header_errors=…, mnemonic_case=…)` for a text that `open_file`
+takes for LAS data (more than one line) -/
+def readHeader (o : ReadOpts) (text : Str) : Except RErr RHeader :=
+  if text.take 4 == "LASF".toList then .error .lasf
+  else readLines o (splitLines text)
+
+end Lasio.Rd
